@@ -3,32 +3,56 @@
    src    = VTup [VInt 0; VList xs; VInt n] (parallelize xs n)  |  VTup [VInt 1; VList parts; VInt 0] (explicit partitions)
    stage  = VTup [VInt kind; VInt code; VInt flag]      action = VTup [VInt a; VInt a1; VInt a2; VInt a3]
    result = VTup [VList (calls logged after each definition step); VList log; action result; partitioning]
+   Elements are ints or codes of None / '' / False / () / [] (NONE ... LST).
    The function library below is the Gallina twin of FN/PRED/GFN/MFN/HFN/OP in py/c06.py. *)
 From Coq Require Import ZArith List Bool String.
 Require Import PV.Base.Val PV.Model.Lazy.
 Import ListNotations.
 Open Scope Z_scope.
 
+(* ints and the falsy / sentinel-like values None, '', False, (), [] ("specials"), written as codes > 100000 *)
+Definition NONE := 100001.
+Definition STR := 100002.
+Definition FALSE := 100003.
+Definition TUP := 100004.
+Definition LST := 100005.
+Definition sp (x : Z) : bool := x >? 100000.
+Definition lift (f : Z -> Z) (x : Z) : Z := if sp x then x else f x.
+Definition lift2 (f : Z -> Z -> Z) (a b : Z) : Z := if sp a || sp b then b else f a b.
+
 Definition lib_fn (c : Z) : option (Z -> Z) :=
   match c with
-  | 0 => Some (fun x => x + 1) | 1 => Some (fun x => 2 * x) | 2 => Some (fun x => - x)
-  | 3 => Some (fun x => x mod 7) | 4 => Some (fun _ => 0) | _ => None
+  | 0 => Some (lift (fun x => x + 1)) | 1 => Some (lift (fun x => 2 * x)) | 2 => Some (lift (fun x => - x))
+  | 3 => Some (lift (fun x => x mod 7)) | 4 => Some (fun _ => 0)
+  | 5 => Some (lift (fun x => if x =? 0 then NONE else x))
+  | 6 => Some (fun _ => NONE)
+  | 7 => Some (lift (fun x => if x mod 2 =? 0 then FALSE else x))
+  | 8 => Some (fun _ => STR)
+  | 9 => Some (lift (fun x => nth (Z.to_nat (x mod 5)) [NONE; STR; FALSE; TUP; LST] NONE))
+  | 10 => Some (lift (fun x => if x mod 2 =? 1 then 0 else x))
+  | _ => None
   end.
 Definition lib_pred (c : Z) : option (Z -> bool) :=
   match c with
-  | 0 => Some (fun x => x mod 2 =? 0) | 1 => Some (fun x => x >? 0) | 2 => Some (fun _ => true)
-  | 3 => Some (fun _ => false) | 4 => Some (fun x => x mod 5 <? 3) | _ => None
+  | 0 => Some (fun x => sp x || (x mod 2 =? 0)) | 1 => Some (fun x => sp x || (x >? 0)) | 2 => Some (fun _ => true)
+  | 3 => Some (fun _ => false) | 4 => Some (fun x => sp x || (x mod 5 <? 3))
+  | 5 => Some sp | 6 => Some (fun x => negb (sp x)) | _ => None
   end.
 Definition zupto (n : Z) : list Z := map Z.of_nat (seq 0 (Z.to_nat n)).
 Definition lib_gfn (c : Z) : option (Z -> list Z) :=
   match c with
-  | 0 => Some (fun x => [x; x]) | 1 => Some (fun x => zupto (x mod 4)) | 2 => Some (fun _ => [])
-  | 3 => Some (fun x => [x]) | 4 => Some (fun x => [x; x + 1]) | _ => None
+  | 0 => Some (fun x => [x; x]) | 1 => Some (fun x => if sp x then [x] else zupto (x mod 4)) | 2 => Some (fun _ => [])
+  | 3 => Some (fun x => [x]) | 4 => Some (fun x => if sp x then [x] else [x; x + 1])
+  | 5 => Some (fun x => [NONE; x])
+  | 6 => Some (fun x => if sp x then [x] else if x mod 2 =? 0 then [NONE] else [x])
+  | 7 => Some (fun _ => [NONE; NONE])
+  | 8 => Some (fun x => [x; FALSE; STR])
+  | _ => None
   end.
 Definition lib_mfn (c : Z) : option (Z -> Z) :=
   match c with
-  | 0 => Some (fun _ => 0) | 1 => Some (fun _ => 1) | 2 => Some (fun x => x mod 3)
-  | 3 => Some (fun x => if x mod 2 =? 0 then 1 else 0) | 4 => Some (fun _ => 2) | _ => None
+  | 0 => Some (fun _ => 0) | 1 => Some (fun _ => 1) | 2 => Some (fun x => if sp x then 1 else x mod 3)
+  | 3 => Some (fun x => if sp x || (x mod 2 =? 0) then 1 else 0) | 4 => Some (fun _ => 2) | _ => None
   end.
 Definition lib_hfn (c : Z) : option (list Z -> list Z) :=
   match c with
@@ -37,7 +61,7 @@ Definition lib_hfn (c : Z) : option (list Z -> list Z) :=
   end.
 Definition lib_op (c : Z) : option (Z -> Z -> Z) :=
   match c with
-  | 0 => Some Z.add | 1 => Some Z.max | 2 => Some Z.sub | 3 => Some (fun _ b => b) | _ => None
+  | 0 => Some (lift2 Z.add) | 1 => Some (lift2 Z.max) | 2 => Some (lift2 Z.sub) | 3 => Some (fun _ b => b) | _ => None
   end.
 
 Definition omap {A B : Type} (f : A -> B) (o : option A) : option B :=
